@@ -279,9 +279,9 @@ func TestC16(t *testing.T) {
 	type c16Echo struct {
 		Flight bool   `json:"flight,omitempty"` // a ping of this process (to a station that does not answer) is still waiting while the frames are measured
 		Pings  int    `json:"pings"`            // pings issued (and timed out or refused) before the measurement
-		V6    bool   `json:"v6"`
-		Type  byte   `json:"type"`
-		ID    uint16 `json:"id"`
+		V6     bool   `json:"v6"`
+		Type   byte   `json:"type"`
+		ID     uint16 `json:"id"`
 	}
 	drv.Prop(t, rec, "echo-after-ping", 200, 3000, func(t *rapid.T) c16Echo {
 		v6 := rapid.Bool().Draw(t, "v6")
@@ -308,7 +308,7 @@ func TestC16(t *testing.T) {
 		copy(buf, fb)
 		run := func() { s.Parse(buf) }
 		run()
-		run() // tracked and online now
+		run()         // tracked and online now
 		if c.Flight { // somebody else's ping is pending for the whole measurement (it times out afterwards)
 			done := make(chan struct{})
 			go func() {
